@@ -26,10 +26,12 @@ Expand(sym) == CASE sym = "EQ" -> <<"\\", "\"">>                     \* escaped 
                  [] sym = "GE" -> <<"g", "e", "o", ":">>
                  [] sym = "UE" -> <<"\\", "u", "0", "0", "E", "9">>   \* é
                  [] sym = "NA" -> <<"é">>                            \* non-ASCII
+                 [] sym = "UQ" -> <<"\\", "u", "0", "0", "2", "2">>   \* a quote written as a UCHAR: still not the end of the literal
+                 [] sym = "UB" -> <<"\\", "u", "0", "0", "5", "C">>   \* a backslash written as a UCHAR: escapes nothing
                  [] OTHER -> <<sym>>                                  \* @ # < > 7 _ % a, and LS
 \* "LS" stands for one character that Unicode - not N-Triples - counts as a line boundary (U+2028; also U+0085, U+000C ...):
 \* inside a literal it is an ordinary character
-Alphabet == {"EQ", "EB", "HH", "SD", "XS", "GE", "UE", "NA", "@", "#", "<", ">", "7", "_", "%", "a", "LS"}
+Alphabet == {"EQ", "EB", "HH", "SD", "XS", "GE", "UE", "NA", "UQ", "UB", "@", "#", "<", ">", "7", "_", "%", "a", "LS"}
 Flat(seq) == FoldLeft(LAMBDA acc, s : acc \o Expand(s), <<>>, seq)
 
 Chars(str) == [i \in 1..Len(str) |-> SubSeq(str, i, i)]              \* TLC string -> sequence of characters
